@@ -1,3 +1,8 @@
 import SupervisorModel.Basic.DriverKit
 import SupervisorModel.Model.LogRead
-def main : IO Unit := Sv.driverMain [("logread", Sv.LogRead.runCase)]
+import SupervisorModel.Model.TailF
+import SupervisorModel.Model.Chunked
+import SupervisorModel.Model.RpcLog
+def main : IO Unit := Sv.driverMain [
+  ("logread", Sv.LogRead.runCase), ("tailf", Sv.TailF.runCase),
+  ("chunkenc", Sv.Chunked.runEnc), ("chunkdec", Sv.Chunked.runDec), ("rpclog", Sv.RpcLog.runCase)]
